@@ -109,6 +109,8 @@ def file_for(kind, flavour):
             ('a_darr', np.array([0.1, 0.2, 0.3], dtype='f8')), ('a_bool', True),
             ('a_npfloat', np.float32(1.25)), ('a_npint', np.int16(12)), ('a_i1arr', np.array([5], dtype='i1')),
             ('a_unicode', u'\u00b5g/m\u00b3 caf\u00e9'),
+            # a name with a double underscore inside (only names that START with an underscore are private)
+            ('history__previous', 'earlier text'),
         ])
         if flavour == 'NETCDF4':
             # Python integers beyond 32 bits (millisecond time stamps, 2**31, a large negative number) and a
@@ -345,8 +347,12 @@ class Prop(core.Prop):
                 p2 = path + '.prior'
                 if os.path.exists(p2):
                     os.unlink(p2)
-                build_real(file_for('dims', 'NETCDF4')).save(p2, format='NETCDF4', complevel=1,
-                                                               verbose=0).close()
+                # (every dimension of the earlier file is unlimited: nothing the writer remembers about the
+                # dimension NAMES of an earlier file may carry over to a file in which they are fixed)
+                pf = file_for('dims', 'NETCDF4')
+                for dk in list(pf.dims):
+                    pf.dims[dk] = [pf.dims[dk][0], True]
+                build_real(pf).save(p2, format='NETCDF4', complevel=1, verbose=0).close()
                 ntrans += 1
             if os.path.exists(path):
                 os.unlink(path)
